@@ -210,7 +210,7 @@ CLAIMED.update({
              'exception, decorator - around arbitrary possibly-failing calls the flag and stack are as before), '
              'hc_on_inside, names_restricted + hcChar_class, enum_restricted, breach_raises_iff, file_set_numbers, '
              'pattern_pinned / enums_eq (generated tables). Tie: flag traces of random context shapes vs the model; '
-             'validate_string vs the class for every code point < 256; 11 aspects x met/breached x inside/outside; '
+             'validate_string vs the class for every code point < 256; 13 aspects x met/breached x inside/outside; '
              'setter_names_restricted / setter_enums_restricted / units_restricted (converter model) with the setters '
              'stream over every name-like, enumerated and units-carrying attribute of every object type.',
         note='PARTIAL: the regex engine is trusted; completeness of the checks on the path to a successful write is tied '
